@@ -71,7 +71,10 @@ pub trait CallCount {
 // document generator
 
 const TARGET_CHARS: &[char] = &['/', 'a', 'b', '.', '-', '0', ' ', ',', ';', '"', '<', '=', '\\', 'é', '😁', ':', '?'];
-const KEYS: &[&str] = &["rt", "if", "sz", "title", "ct", "obs", "title*", "k", "x-y_z", "a1", "anchor", "rel"];
+const KEYS: &[&str] = &[
+    "rt", "if", "sz", "title", "ct", "obs", "title*", "k", "x-y_z", "a1", "anchor", "rel", "rel", "rt",
+    "x-a-rather-long-attribute-name", "registration-lifetime-seconds-0123456789", "k0123456789012345678", "k01234567890123456789", "k012345678901234567890123456",
+];
 pub const VALUE_ALPHABET: &[char] = &['"', '\\', ',', ';', '<', '>', '=', ' ', '\n', '\r', 'a', '0', 'é', '😁'];
 
 /// code points whose low byte (or low 16 bits) equals a structural ASCII character: " \ , ; < > =
@@ -770,8 +773,8 @@ pub fn run_c18(ctx: &mut Ctx) {
         // directed: two links so that the separator path is taken, every attribute method
         let doc = vec![
             Link { target: "/a".into(), attrs: vec![("rt".into(), AttrKind::Quoted("x\"y\\".into())), ("sz".into(), AttrKind::U32(77)), ("ct".into(), AttrKind::U16(40)), ("if".into(), AttrKind::Plain("plain".into())), ("t".into(), AttrKind::Plain("needs quoting".into()))] },
-            Link { target: "/b".into(), attrs: vec![] },
-            Link { target: "".into(), attrs: vec![("k".into(), AttrKind::Plain("".into()))] },
+            Link { target: "/b".into(), attrs: vec![("registration-lifetime-seconds".into(), AttrKind::U32(4_000_000_000)), ("k01234567890123456789".into(), AttrKind::U32(7)), ("a-sixteen-bit-value-with-a-long-name".into(), AttrKind::U16(65535))] },
+            Link { target: "".into(), attrs: vec![("k".into(), AttrKind::Plain("".into())), ("rel".into(), AttrKind::Plain("a".into())), ("rel".into(), AttrKind::Quoted("b".into()))] },
         ];
         c18_doc(rep, &doc, &mut stats, 1);
         rep.distinct(fnv(describe(&doc).as_bytes()));
